@@ -50,6 +50,7 @@ Definition cmd_enabled (s : state) (c : cmd) : bool :=
   match c with
   | CNew _ | CLoad _ _ | CLoadFull _ _ | CRcu _ _ _ | CIntoInner _ _ | CDropStore _
   | CCacheNew _ _ | CSetGen _ => true
+  | CJoin t => match t_status (thr s t) with Exited => true | _ => false end
   | CClone h _ => match hnd s h with HOwned _ | HGuard _ _ => true | _ => false end
   | CDrop h | CMove h _ => match hnd s h with HEmpty => false | _ => true end
   | CGuardInto h _ => match hnd s h with HGuard _ _ => true | _ => false end
@@ -131,13 +132,16 @@ Definition cmd_start (cf : config) (s : state) (l : tlocal) (c : cmd)
       | inr ps => inr ps
       end
   | CIntoInner c h =>
+      (* `*self.ptr.get_mut()`: a plain read; the container is consumed, its storage is
+         never accessed again (the model clears it: the count it held now belongs to the frame) *)
       let p := mem (sh s) (LStore c) in
       let '(l', fs) := enter_pay l c p in
-      inl (s, l', fs ++ [WInto p; KDone (Some h)], RUnit)
+      inl (mkState (m_set (sh s) (LStore c) 0) (thr s) (hnd s), l', fs ++ [WInto p; KDone (Some h)], RUnit)
   | CDropStore c =>
       let p := mem (sh s) (LStore c) in
       let '(l', fs) := enter_pay l c p in
-      inl (s, l', fs ++ [WDropStore p; KDone None], RUnit)
+      inl (mkState (m_set (sh s) (LStore c) 0) (thr s) (hnd s), l', fs ++ [WDropStore p; KDone None], RUnit)
+  | CJoin _ => inl (s, l, [], RUnit)
   | CCacheNew c k =>
       match enter_load cf l c with
       | inl (l', fs) => inl (s, l', fs ++ [WLoadFull; KCacheDone c k], RUnit)
@@ -228,7 +232,7 @@ Definition step (cf : config) (s : state) (t x : N) : state * list event :=
           | None =>
               (* end of the program: the thread function returns, TLS destructors run *)
               match tl_node (t_loc th) with
-              | Some n => (set_thread s t (mkThread [C1 n; WThreadExit] (t_loc th) (t_prog th) (t_cmdi th) Running), [EvExit])
+              | Some n => (set_thread s t (mkThread [C1 n; WThreadExit] (tl_set_node (t_loc th) None) (t_prog th) (t_cmdi th) Running), [EvExit])
               | None => (set_thread s t (mkThread [] (t_loc th) (t_prog th) (t_cmdi th) Exited), [EvExit])
               end
           end
